@@ -9,15 +9,18 @@ PATHS = {"A": ("sp", ("a",)), "B": ("sp", ("b", "c")), "X": ("doc", ("x",)), "N"
          "S": ("sp", ("spin", "up")), "D": ("sp", ("docs", "k"))}
 
 # full value universe (atom level)
-U_FULL = [1, 1.0, True, 2, 2.5, None, "1", "ab", [1, 2], {"c": 1}, {"c": "x"}, MISSING, 0, False, -2, -2.0]
+U_FULL = [1, 1.0, True, 2, 2.5, None, "1", "ab", [1, 2], {"c": 1}, {"c": "x"}, MISSING, 0, False, -2, -2.0,
+          [{"x": 1}], [{"x": 1.0, "y": 2}]]  # lists holding mappings (hashed through a helper type inside the index)
 # reduced universes (combination levels)
 U_RED = {"A": [1, 1.0, True, "1", [1, 2], MISSING], "B": [1, "x", MISSING], "X": [1, 2.5, MISSING],
          "N": [1, MISSING], "S": [1, "x", MISSING], "D": [1, MISSING]}
 U_COLLIDE = [1, 1.0, True, "1", MISSING, -2, -2.0]
 
 ARGS = {
-    None: [1, 1.0, True, 2, 2.5, None, "1", "ab", [1, 2], [1.0, 2], 0, False, -2, -2.0, 9007199254740993],
-    "$eq": [1, 1.0, True, 2, 2.5, None, "1", "ab", [1, 2], [1.0, 2], 0, False, -2, -2.0, 9007199254740993],
+    None: [1, 1.0, True, 2, 2.5, None, "1", "ab", [1, 2], [1.0, 2], 0, False, -2, -2.0, 9007199254740993, [{"x": 1.0}],
+           [{"y": 2, "x": 1}]],
+    "$eq": [1, 1.0, True, 2, 2.5, None, "1", "ab", [1, 2], [1.0, 2], 0, False, -2, -2.0, 9007199254740993, [{"x": 1.0}],
+            [{"y": 2, "x": 1}]],
     "$ne": [1, 1.0, True, 2, 2.5, None, "1", "ab", [1, 2], [1.0, 2], 0, False, -2, -2.0],
     "$gt": [1, 1.0, 2.5, True, "1", "ab", [1, 2], None, -2, 9007199254740992],
     "$gte": [1, 1.0, 2.5, True, "1", "ab", [1, 2], None, -2],
